@@ -84,7 +84,15 @@ def dispatch_call(fr: Frame, e: ast.Call, env, guard: G, stmt):
     q = _quantified(fr, e, env)
     if q is not None:
         return q
-    args = [fr.expr(a, env) for a in e.args]
+    args = []
+    for a in e.args:
+        if isinstance(a, ast.Starred):
+            sv = fr.expr(a.value, env)
+            if not isinstance(sv, Vec):
+                raise Unsupported("*argument whose items are not known")
+            args.extend(sv.items)            # f(*pair) is f(pair[0], pair[1])
+        else:
+            args.append(fr.expr(a, env))
     kwargs = {k.arg: fr.expr(k.value, env) for k in e.keywords if k.arg is not None}
 
     # ---- method calls on evaluated values --------------------------------
@@ -548,6 +556,11 @@ def _known(fr: Frame, name: str, e, args, kwargs, env, guard, stmt):
                 return Rat.const(math.ceil(c) if name.endswith("ceil") else math.floor(c))
             return anf.opaque(name[5:], r, array=False)
         return lift(cf, a(0))
+    if name == "np.append" and len(args) == 2 and "axis" not in kwargs and isinstance(a(0), Vec) and a(0).kind == "list" and isinstance(a(1), Rat) \
+            and not a(1).is_array():
+        return Vec(list(a(0).items) + [a(1)], "list")       # np.append(np.array(list), scalar): the list with one more element
+    if name == "py.bool" and len(args) == 1:
+        return fr.truth(a(0))
     if name == "py.round":
         return lift(lambda v: anf.opaque("round", R(v)), a(0))
     if name == "py.range":
